@@ -2,6 +2,8 @@ package checks
 
 import (
 	"bytes"
+	"context"
+	"time"
 	"encoding/json"
 	"fmt"
 	"os"
@@ -23,6 +25,34 @@ func worker(out interface{}, args ...string) error {
 	cmd.Stderr = &stderr
 	if err := cmd.Run(); err != nil {
 		return fmt.Errorf("%v: %s", err, tail(stderr.String(), 2000))
+	}
+	if err := json.Unmarshal(stdout.Bytes(), out); err != nil {
+		return fmt.Errorf("bad worker output: %v: %s", err, tail(stdout.String(), 500))
+	}
+	return nil
+}
+
+// workerN is worker with a wall-clock limit (0 = 20 minutes); exceeding it is reported as an error.
+func workerN(out interface{}, secs int, args ...string) error {
+	if secs == 0 {
+		secs = 1200
+	}
+	exe, err := os.Executable()
+	if err != nil {
+		return err
+	}
+	ctx, cancel := context.WithTimeout(context.Background(), time.Duration(secs)*time.Second)
+	defer cancel()
+	cmd := exec.CommandContext(ctx, exe, args...)
+	cmd.Env = append(os.Environ(), "GOMAXPROCS=2")
+	var stdout, stderr bytes.Buffer
+	cmd.Stdout = &stdout
+	cmd.Stderr = &stderr
+	if err := cmd.Run(); err != nil {
+		if ctx.Err() != nil {
+			return fmt.Errorf("timed out after %ds", secs)
+		}
+		return fmt.Errorf("%v: %s", err, tail(stderr.String(), 1500))
 	}
 	if err := json.Unmarshal(stdout.Bytes(), out); err != nil {
 		return fmt.Errorf("bad worker output: %v: %s", err, tail(stdout.String(), 500))
